@@ -94,6 +94,7 @@ known("C18", "char-conversion-validation-and-padding", "type 'c' accepts a preci
 known("C18", "float-no-type-with-precision-or-alt", "a float without presentation type but with a precision or '#' takes a different branch ('1' instead of '1.0', '1e+16' instead of '1.e+16')", "format(1.0, '.2')")
 known("C18", "leading-conversion-accepted-in-format-spec", "FormatSpec::parse accepts a leading '!x' conversion inside the specification text; Python's format() rejects it", "format(1, '!b')")
 known("C18", "char-conversion-of-surrogate-code-point-is-an-error", "type 'c' with an integer in U+D800..U+DFFF returns CodeNotInRange: Python returns a lone surrogate, which a Rust String cannot hold (before 175e5de this panicked)", "format(0xD800, 'c')")
+known("C18", "string-precision-above-i32-max-rejected", "FormatSpec::parse refuses any precision above i32::MAX (PrecisionTooBig); for text the reference accepts precisions up to the platform's ssize_t and simply truncates nothing", "format('abc', '.2147483648')")
 known("C18", "float-no-type-shortest-repr-tie-broken-differently", "a float without type and precision is rendered with Rust's shortest round-trip digits; where two equally short digit strings round-trip, Python's repr picks the one nearer the exact value and the crate may pick the other", "format(915724668195213.2, '')")
 fixed("C18", "unlisted:differs-from-python-format", "c9de06d", "the '%' type printed 'inf.%' (with '#') / padded differently when value*100 overflows to infinity: the inf/nan test was made before the multiplication", "format(2e307, '#.0%')")
 fixed("C18", "unlisted:panic", "175e5de", "FormatSpec::format_int with type 'c' panicked (char::from_u32(..).unwrap()) for integers in the surrogate range U+D800..U+DFFF", "format(0xD800, 'c')")
